@@ -323,9 +323,9 @@ ADD["C12"] = ("  ADDED: 'plain JSON data that survives a JSON round trip unchang
 ADD["C05"] = (ADD["C05"][0] + "  The side conditions of the text theorem are proved to be invariants of every reachable state, "
               "every restore point and the save slot (Proofs/SaveTextReach.v), for oracles returning Python values.", None)
 ADD["C14"] = (ADD["C14"][0] + "  The statement site carries the line Python blames (oracle py_stmt_errline, filled with the real ast): "
-              "kind (s) - the blamed line lies inside the statement, under a premise that fails for a statement holding bare "
-              "carriage returns: known finding F14c (pinned witness, model witness stmt_index_past_end_refuted, candidate patch "
-              "proved right by clamped_stmt_index_inside).", None)
+              "kind (s) - the blamed line lies inside the statement, for every oracle with no premise, since the index is clamped "
+              "to the statement (F14c, found by proving this, repaired in /repo 15b6fb4; clamped_stmt_index_inside, "
+              "stmt_index_clamped_regression).", None)
 ADD["C07"] = (ADD["C07"][0] + "  The engine's argument dictionary is modelled with dict-update semantics (args_dict; a keyword named "
               "arg_N overwrites the positional entry as in Python) with pinned witnesses in the run.", None)
 ADD["C05"] = (ADD["C05"][0] + "  The model's save document has all 12 keys in the real order and is compared with save_state() "
